@@ -162,6 +162,22 @@ class Interposer:
                             silent = err is None or not (float(err) < 1.0)
                         except (TypeError, ValueError):
                             silent = True
+                        if not silent:
+                            # the helper claims an exact fixed point (tolerances 1e-300).  Verify independently with the solver's own
+                            # tolerances: one more application of the map to a COPY of the returned point must reproduce it (a helper
+                            # whose iterates alias each other reports error 0 on any map that updates its argument in place)
+                            import numpy as np
+
+                            try:
+                                xr = np.array(out[0], dtype=float, copy=True)
+                                z = np.asarray(fun(xr.copy()), dtype=float)
+                                scale = atol + np.maximum(np.abs(xr), np.abs(z)) * rtol
+                                e2 = float(np.linalg.norm((z - xr) / scale) / max(len(xr), 1) ** 0.5)
+                                if not (e2 < 1.0):
+                                    silent = True
+                                    rec["claimed_fixed_point_error"] = e2
+                            except Exception:
+                                pass
                         rec["effective"] = bool(silent)
                         rec["silent_return"] = bool(silent)
                         return out
